@@ -57,5 +57,7 @@ def write_evidence(root, prop, tier, seed, wall, n_obl, n_dis, samples, function
             ass.add(a)
     ev["assumptions"] = sorted(ass) + [MODE_TEXT[m] for m in modes if m in MODE_TEXT] + \
         ["termination is not proved", "library contracts (numpy/scipy shims) and axiom families are trusted; see coverage.trusted_base"]
-    os.makedirs(os.path.join(root, "evidence"), exist_ok=True)
-    json.dump(ev, open(os.path.join(root, "evidence", f"{prop}.json"), "w"), indent=1, default=str)
+    # (runs against a modified copy of the repository - tools/mutant.sh, tools/eval_seeded.py - must not overwrite the evidence of the real tree)
+    out_dir = os.environ.get("PYVC_EVIDENCE_DIR") or os.path.join(root, "evidence")
+    os.makedirs(out_dir, exist_ok=True)
+    json.dump(ev, open(os.path.join(out_dir, f"{prop}.json"), "w"), indent=1, default=str)
